@@ -315,7 +315,7 @@ def pycoin_sign(built, tx, mech, key_idxs, hash_type=None, idx_set=None, scripts
     forms: selects the container form (list / tuple / iterator / generator; set / frozenset / list / tuple for the index
     set) in which the iterable arguments are handed over - the documented parameter types are iterables;
     crowd: that many unrelated private keys are supplied along with the needed ones (after them; before them if negative)."""
-    f_scripts, f_keys, f_idx = forms % 4, (forms // 4) % 4, (forms // 16) % 4
+    f_scripts, f_keys, f_idx = forms % 4, (forms // 4) % 4, (forms // 16) % 4        # bit 6, bit 7: see the keychain branch
     net = built.net
     scripts = built.all_scripts() if scripts is None else scripts
     kwargs = {}
@@ -339,8 +339,13 @@ def pycoin_sign(built, tx, mech, key_idxs, hash_type=None, idx_set=None, scripts
         for mi, master in enumerate(masters):
             paths = [ring_path_text(k) for k in key_idxs if ring_path(k)[0] == mi]
             # hardened steps cannot be derived from the public node; the others are registered the way keychain_test does
-            kc.add_key_paths(master.public_copy(), [p for p in paths if "H" not in p])
-            kc.add_key_paths(master, [p for p in paths if "H" in p])
+            if (forms >> 7) & 1:
+                # the other registration call: one path for a collection of wallet keys (co-signers sharing an account path)
+                for p in paths:
+                    kc.add_keys_path([master if "H" in p else master.public_copy()], p)
+            else:
+                kc.add_key_paths(master.public_copy(), [p for p in paths if "H" not in p])
+                kc.add_key_paths(master, [p for p in paths if "H" in p])
         if (forms >> 6) & 1:
             # the caller also holds the masters' own keys as plain (non-hierarchical) keys and adds those first: the same
             # secret then arrives twice, once without and once with its derivation structure
